@@ -869,7 +869,16 @@ class CSemantics:
 
             # Booleans are integer type:
             result_typ = self.int_type
-        elif op in ["<<", ">>", "|", "&", "^"]:  # Bit shifting operators
+        elif op in ["<<", ">>"]:  # Bit shifting operators
+            self.ensure_integer(lhs)
+            self.ensure_integer(rhs)
+
+            # The result has the type of the promoted left operand, the
+            # type of the shift amount has no influence.
+            lhs = self.promote(lhs)
+            result_typ = lhs.typ
+            rhs = self.coerce(rhs, result_typ)
+        elif op in ["|", "&", "^"]:  # Bitwise operators
             self.ensure_integer(lhs)
             self.ensure_integer(rhs)
 
